@@ -236,10 +236,19 @@ func assembleMSA(t *rapid.T, a Anno, qs []varQuery, withRef bool, extraBothGap b
 
 func genMSA(t *rapid.T, a Anno, maxQueries int, indelHeavy bool) MsaCase {
 	n := rapid.IntRange(1, maxQueries).Draw(t, "nQueries")
+	many := sizeClass(t, "msa") == 1
 	withRef := indelHeavy || rapid.IntRange(0, 4).Draw(t, "refFromAnno") != 0
 	var qs []varQuery
 	for i := 0; i < n; i++ {
 		qs = append(qs, genVarQuery(t, a, genID(t, i, "qname"), withRef, indelHeavy))
+	}
+	if many {
+		// more rows than the reader -> worker channel can buffer (50 + threads): copies of the generated queries
+		base := len(qs)
+		for i := base; i < rapid.IntRange(60, 90).Draw(t, "manyRows"); i++ {
+			src := qs[i%base]
+			qs = append(qs, varQuery{Name: genID(t, i, "qname"), Row: append([]byte(nil), src.Row...), Ins: src.Ins})
+		}
 	}
 	return assembleMSA(t, a, qs, withRef, withRef && rapid.IntRange(0, 2).Draw(t, "extraBothGap") == 0)
 }
